@@ -10,7 +10,7 @@ from .. import gens
 from ..trace import Trace
 
 RULE = ("Cases: nensembles 1..8 x nprocesses 1..8 x noise_mode {single, flip} x ensemble_noise {0, 0.05, 0.2, 1} x signals of "
-        "256..512 samples (stored as float64 / float32 / int64 / int16) x caps 1..3, the global numpy RNG seeded with a drawn value before every call; the same grid for "
+        "256..512 samples (stored as float64 / float32 / int64 / int16) x caps {1,2,3} and caps above what the members yield {9,14}, the global numpy RNG seeded with a drawn value before every call; the same grid for "
         "complete_ensemble_sift. Oracle, from the guarded in-tree trace of the per-member worker (member index, pid, the "
         "noise array actually added): (a) one record per member and stage, the members' noise arrays pairwise different "
         "(digest) and pairwise |corr| < 0.5; (b) the output equals the per-IMF mean over members of sift(x +- noise_i, cap) "
@@ -31,7 +31,7 @@ def ens_case(draw):
            'dtype': draw(st.sampled_from(['f8', 'f8', 'f8', 'f4', 'i8', 'i2']))}
     return {'sig': sig, 'nens': draw(st.integers(1, 8)), 'nproc': draw(st.integers(1, 8)),
             'mode': draw(st.sampled_from(['single', 'flip'])), 'noise': draw(st.sampled_from([0.0, 0.05, 0.2, 1.0])),
-            'cap': draw(st.integers(1, 3)), 'seed': draw(st.integers(0, 2**31 - 1))}
+            'cap': draw(st.sampled_from([1, 2, 3, 3, 9, 14])), 'seed': draw(st.integers(0, 2**31 - 1))}
 
 
 def digest(a):
@@ -158,7 +158,15 @@ def oracle_complete(case, rec):
         noises = [np.asarray(r['noise'], dtype=float).reshape(N, 1) for r in rs]
         # later stages add the *residues* of the noise columns (slow trends with a common offset), which may well be
         # correlated by chance: independence is asserted on the raw realisations of the first stage, distinctness always
-        check_distinct(noises, 'C08/complete_ensemble_sift/' + tag, N, case['noise'], correlation=(s == 0))
+        if s > 0:
+            # a noise column that has been decomposed completely leaves an exactly-zero residue: nothing left to add for
+            # that member. Distinctness is required among the members that still carry noise.
+            live = [nz for nz in noises if np.any(nz)]
+            if len(live) < len(noises):
+                rec.cls('late stage with exhausted (all-zero) noise columns')
+            check_distinct(live, 'C08/complete_ensemble_sift/' + tag, N, case['noise'], correlation=False)
+        else:
+            check_distinct(noises, 'C08/complete_ensemble_sift/' + tag, N, case['noise'], correlation=True)
         try:
             members = [member_decomposition(emd, resid[:, None], nz, case['mode'], 1)[:, 0] for nz in noises]
         except emd.support.EMDSiftCovergeError:
